@@ -139,6 +139,8 @@ def plot_case(ctx, _unused):
     # make sure cubic and mixed chains appear often
     if kind in "SU" and curved and rng.random() < 0.6:
         spec, info = G.random_blob(rng, (0, 0), 10.0, degree=rng.choice([2, 3, 3]), cw=(kind == "U"), mixed=rng.random() < 0.4)
+    if kind in "SU" and curved and rng.random() < 0.1:
+        spec, info = G.random_teardrop(rng, (0, 0), 10.0, cw=(kind == "U"))
     case = Case(ctx, {"shape": spec}, "%s-%s" % (kind, "curved" if G.spec_is_curved(spec) else "straight"))
     shape = G.build(spec)
     judge_plot(case, shape)
